@@ -72,7 +72,7 @@ func main() {
 		c.allocBound(c.accepted("lists", "maps")[:4])
 	case "C06":
 		c.roundTrip(c.accepted("lists", "maps", "scalars", "byvalue", "recursive", "nocopy", "ptrbinary", "random", "defaults"), n)
-		c.decodeSide(c.accepted("evolution", "nocopy", "ptrbinary"), n, false)
+		c.decodeSide(c.accepted("evolution", "nocopy", "ptrbinary", "scalars", "defaults", "byvalue", "leaf", "recursive"), n, false)
 		c.spanOps(40 * n)
 	case "C07":
 		c.cacheHistory(60 * n)
